@@ -19,6 +19,9 @@ import (
 // resolved callees, fields, parameters (by index) and constants.
 func desc(v ssa.Value) string { return descD(v, 0) }
 
+// descParamSpill: name spilled parameters as parameters (see descD, *ssa.Alloc).
+var descParamSpill = true
+
 func descD(v ssa.Value, d int) string {
 	if v == nil {
 		return "<nil>"
@@ -128,6 +131,17 @@ func descD(v ssa.Value, d int) string {
 		sort.Strings(parts)
 		return "phi(" + strings.Join(parts, "|") + ")"
 	case *ssa.Alloc:
+		// a parameter spilled to the heap because a closure captures it reads as the parameter: whether some closure
+		// (a deferred func literal, say) captures it must not change how the value is named
+		if descParamSpill {
+			if pv, ok := singleStore(x).(*ssa.Parameter); ok {
+				for i, q := range pv.Parent().Params {
+					if q == pv {
+						return "p" + strconv.Itoa(i)
+					}
+				}
+			}
+		}
 		return "alloc:" + typeStr(x.Type())
 	case *ssa.MakeMap:
 		return "makemap"
